@@ -140,6 +140,17 @@ def run(pid, tier, seed):
         "sweep_behaviours": s["behaviours"], "sweep_fail_keys": s["fail_keys"],
         "failures_attributed_to_other_properties": foreign, "recorded_events": lines,
     }
+    if pid == "C02":
+        # the unified constructors (types, names, atoms) report their operands too: IprUnify's read-back
+        import p_unify
+        u = p_unify.run("C02", tier, seed)
+        uc = u["coverage"]
+        for k in ("states", "transitions", "traces_validated_against_impl", "evaluations", "distinct_nontrivial"):
+            coverage[k] += uc[k]
+        coverage["unified_constructors"] = {"jobs": uc["jobs"], "recorded_events": uc["recorded_events"]}
+        coverage["rule"] += " The get_ constructors of types, names and atoms are covered by IprUnify behaviours whose read-back " \
+                            "(operands, qualifiers, spelling, transfer) is compared per call."
+        violations += u["violations"]
     return {"coverage": coverage, "violations": violations,
             "assumptions": ["the node table (tools/gen_nodes.py) is the oracle; it is written from the interface documentation",
                             "expr_factory::make_annotation and Lexicon::make_token are declared but not defined by the library and cannot be exercised"]}
